@@ -9,6 +9,7 @@
 #include "iora/core/logger.hpp"
 #include "iora/parsers/json.hpp"
 #include <condition_variable>
+#include <filesystem>
 #include <fstream>
 #include <mutex>
 #include <set>
@@ -227,17 +228,34 @@ private:
   {
     try
     {
-      std::ofstream file(_filename);
+      // Write a temp file and rename it over the durable one, so that a crash
+      // or a failed write never leaves _filename empty or half-written.
+      const std::string tempFilename = _filename + ".tmp";
+      std::ofstream file(tempFilename);
       if (file)
       {
         std::string jsonData = _store.dump(2);
         file << jsonData;
+        file.close();
+        std::error_code ec;
+        if (file.good())
+        {
+          std::filesystem::rename(tempFilename, _filename, ec);
+        }
+        if (!file.good() || ec)
+        {
+          std::filesystem::remove(tempFilename, ec);
+          iora::core::Logger::error("JsonFileStore: Failed to write " + tempFilename +
+                                    " and rename it to " + _filename);
+          return;
+        }
         iora::core::Logger::debug("JsonFileStore: Wrote " + std::to_string(jsonData.length()) +
                                   " bytes to " + _filename);
       }
       else
       {
-        iora::core::Logger::error("JsonFileStore: Failed to open " + _filename + " for writing");
+        iora::core::Logger::error("JsonFileStore: Failed to open " + tempFilename +
+                                  " for writing");
       }
     }
     catch (const std::exception &e)
